@@ -363,9 +363,26 @@ static inline int is_chunked_ctl_char(const unsigned char c) {
  * @returns 1 if it looks valid, 0 if it looks invalid
  */
 static inline int data_probe_chunk_length(htp_connp_t *connp) {
-    if (connp->out_current_read_offset - connp->out_current_consume_offset < 8) {
+    // The line may have started in an earlier chunk; its first bytes are then in the buffer.
+    size_t buffered = (connp->out_buf != NULL) ? connp->out_buf_size : 0;
+
+    if (buffered + connp->out_current_read_offset - connp->out_current_consume_offset < 8) {
         // not enough data so far, consider valid still
         return 1;
+    }
+
+    for (size_t k = 0; k < buffered; k++) {
+        unsigned char c = connp->out_buf[k];
+
+        if (is_chunked_ctl_char(c)) {
+            // ctl char, still good.
+        } else if (isdigit(c) || (c >= 'a' && c <= 'f') || (c >= 'A' && c <= 'F')) {
+            // real chunklen char
+            return 1;
+        } else {
+            // leading junk, bad
+            return 0;
+        }
     }
 
     unsigned char *data = connp->out_current_data + connp->out_current_consume_offset;
